@@ -83,3 +83,81 @@ theorem decodePages_count (leaf : Leaf) : ∀ (pages : List (PageInfo × List Na
       · simp [ht, List.filter_cons]; omega
 
 end PqV.Spec
+
+namespace PqV.Spec
+
+theorem levelsV1_length (m n : Nat) (bs : List Nat) (lv rest : List Nat) (h : levelsV1 m n bs = some (lv, rest)) : lv.length = n := by
+  unfold levelsV1 at h
+  simp only at h
+  repeat' (first
+    | (injection h with h; injection h with h1 h2; subst h1; simp; done)
+    | (simp at h; done)
+    | split at h)
+  all_goals (rename_i hl; injection h with h; injection h with h1 h2; subst h1; simpa using hl)
+
+end PqV.Spec
+
+namespace PqV.Spec
+
+/-- every accepted data page contributes exactly `num_values` definition levels -/
+theorem decodePage_defs (leaf : Leaf) (acc acc' : PageAcc) (p : PageInfo) (body : List Nat)
+    (h : decodePage leaf acc p body = .ok acc') :
+    acc'.defs.length = acc.defs.length + (if p.ptypeTag = 2 then 0 else p.numValues) := by
+  unfold decodePage at h
+  simp only at h
+  by_cases hb : body.length ≠ p.uncompSize
+  · simp [hb] at h
+  · simp only [hb, if_false] at h
+    by_cases h2 : p.ptypeTag = 2
+    · simp only [h2, if_true] at h
+      repeat' (first | (injection h with h; subst h; simp [h2]; done) | (simp at h; done) | split at h)
+    · simp only [h2, if_false] at h
+      by_cases h0 : p.ptypeTag = 0
+      · simp only [h0, if_true] at h
+        cases hr : levelsV1 leaf.maxRep p.numValues body with
+        | none => simp [hr] at h
+        | some pr =>
+          obtain ⟨rl, r1⟩ := pr
+          simp only [hr] at h
+          cases hd : levelsV1 leaf.maxDef p.numValues r1 with
+          | none => simp [hd] at h
+          | some pd =>
+            obtain ⟨dl, r2⟩ := pd
+            simp only [hd] at h
+            have hlen := levelsV1_length _ _ _ _ _ hd
+            split at h
+            · simp at h
+            · injection h with h; subst h; simp [h2, hlen]
+      · simp only [h0, if_false] at h
+        generalize hdlv : (if leaf.maxDef = 0 then List.replicate p.numValues 0
+            else decodeHybrid (widthFor leaf.maxDef) p.numValues (List.take p.defLen (List.drop p.repLen body))) = dl at h
+        generalize hrlv : (if leaf.maxRep = 0 then List.replicate p.numValues 0
+            else decodeHybrid (widthFor leaf.maxRep) p.numValues (List.take p.repLen body)) = rl at h
+        by_cases hlv : dl.length ≠ p.numValues ∨ rl.length ≠ p.numValues
+        · simp [hlv] at h
+        · simp only [hlv, if_false] at h
+          have hdl : dl.length = p.numValues := Decidable.byContradiction (fun hc => hlv (Or.inl hc))
+          repeat' (first | (injection h with h; subst h; simp [h2, hdl]; done) | (simp at h; done) | split at h)
+
+theorem decodePages_defs (leaf : Leaf) : ∀ (pages : List (PageInfo × List Nat)) (acc acc' : PageAcc),
+    decodePages leaf acc pages = .ok acc' →
+    acc'.defs.length = acc.defs.length + ((pages.filter (fun x => x.1.ptypeTag != 2)).map (fun x => x.1.numValues)).sum := by
+  intro pages
+  induction pages with
+  | nil => intro acc acc' h; simp only [decodePages] at h; injection h with h; subst h; simp
+  | cons x xs ih =>
+    intro acc acc' h
+    obtain ⟨p, body⟩ := x
+    simp only [decodePages] at h
+    cases hp : decodePage leaf acc p body with
+    | error e => simp [hp] at h
+    | ok a1 =>
+      simp only [hp] at h
+      have h1 := decodePage_defs leaf acc a1 p body hp
+      have h2 := ih a1 acc' h
+      rw [h2, h1]
+      by_cases ht : p.ptypeTag = 2
+      · simp [ht, List.filter_cons]
+      · simp [ht, List.filter_cons]; omega
+
+end PqV.Spec
